@@ -85,6 +85,20 @@ def coerce(kind, raw):
     raise KeyError(kind)
 
 
+# README: "<SHORT NAME>_<OPTION>" in upper case; short names of the shipped backends and of the custom test backend
+DOCUMENTED_ENV_PREFIX = {'s3': 'S3', 's3c': 'S3C', 'b2': 'B2', 'vfy': 'VFY', 'local': 'LOCAL'}
+DOCUMENTED_MAIN_ENV = {'repository': 'REPLICAT_REPOSITORY', 'password': 'REPLICAT_PASSWORD'}
+
+
+def env_name(owner, dest):
+    """documented name of the environment variable of an option (None: the option has none)"""
+    if owner == '':
+        return DOCUMENTED_MAIN_ENV.get(dest)
+    if owner in DOCUMENTED_ENV_PREFIX:
+        return f'{DOCUMENTED_ENV_PREFIX[owner]}_{dest}'.upper()
+    return None
+
+
 class Setting:
     """one way an option is set at one level: `kind` as above, or 'const' (flag without value) with `value`,
     or 'null-if-true' (the `no-cache` key)"""
